@@ -106,6 +106,7 @@ fn make(c: &mut Ctx, rng: &mut ChaCha20Rng, small: bool, deferred: bool) -> Opti
                 hostile: false,
                 pczt_heights: true,
                 balanced_only: true,
+                    big_multisig: false,
                 max_io: if small { 2 } else { 3 },
             },
         );
@@ -822,7 +823,7 @@ fn update(c: &mut Ctx, p: Pczt, rng: &mut ChaCha20Rng, party: u8, made: &Made, e
             .iter()
             .map(|t| match t.kind {
                 TInKind::P2pkh { acct, key } | TInKind::WrongKey { acct, key } => Some(c.w.accounts[acct].tkeys[key].pk.serialize()),
-                TInKind::P2sh => None,
+                TInKind::P2sh { .. } => None,
             })
             .collect();
         match Updater::new(p.clone()).update_transparent_with(|mut u| {
@@ -945,10 +946,10 @@ fn sign(c: &mut Ctx, p: Pczt, ds: &[Duty], made: &Made) -> Result<Pczt, String> 
         let res = match d {
             Duty::T(i) => match made.req.t_in[*i].kind {
                 TInKind::P2pkh { acct, key } | TInKind::WrongKey { acct, key } => s.sign_transparent(*i, &c.w.accounts[acct].tkeys[key].sk),
-                TInKind::P2sh => {
+                TInKind::P2sh { ms, ref signers } => {
                     let mut r = Ok(());
-                    for sk in c.w.multisig.sks.iter().take(2) {
-                        r = r.and(s.sign_transparent(*i, sk));
+                    for k in signers {
+                        r = r.and(s.sign_transparent(*i, &c.w.multisigs[ms].sks[*k]));
                     }
                     r
                 }
